@@ -183,6 +183,7 @@ PROPS = {
                   {"name": "TestC12Evaluate", "quick": 50, "shards_quick": 3, "thorough": 300, "shards": 12},
                   {"name": "TestC12SearchAfterBuild", "quick": 6, "shards_quick": 3, "thorough": 60, "shards": 6},
                   {"name": "TestC12IndexFailure", "quick": 200, "thorough": 3000, "shards": 4},
+                  {"name": "TestC12GhostAfterRebuild", "quick": 60, "thorough": 600, "shards": 4},
                   {"name": "FuzzQueryParse", "fuzztime": 60}],
     },
     "C11": {
